@@ -2,4 +2,5 @@
 import hashlib
 
 def obj_seed(obj):
-    return int(hashlib.sha1(hash(obj).to_bytes(8, 'big', signed=True)).hexdigest(), 16)
+    # derived from repr(), not hash(): str hashes are salted per interpreter process
+    return int(hashlib.sha1(repr(obj).encode()).hexdigest(), 16)
